@@ -14,6 +14,7 @@ import (
 	"strconv"
 	"strings"
 	"testing"
+	"time"
 
 	"github.com/sirupsen/logrus"
 )
@@ -117,10 +118,29 @@ func v6Main(t *testing.T, out string, body func(sink func(op v6Op) string)) {
 	}
 	defer fs.Close()
 	x := &v6Exec{base: out}
+	var current []byte
+	v6Hang = func(msg string) {
+		// the op in progress is the last line of ops.jsonl: the ops written so far are the replay
+		fmt.Fprintf(os.Stderr, "HANG: %s\nop in progress: %.600s\n", msg, current)
+		fi.WriteString("hang:" + msg + "\n")
+		fi.Sync()
+		fo.Sync()
+		os.Exit(97)
+	}
 	body(func(op v6Op) string {
 		b, _ := json.Marshal(op)
 		fo.Write(b)
 		fo.Write([]byte("\n"))
+		current = b
+		done := make(chan struct{})
+		defer close(done)
+		go func() { // per-op watchdog
+			select {
+			case <-done:
+			case <-time.After(v6OpLimit):
+				v6Hang(fmt.Sprintf("op did not return within %v", v6OpLimit))
+			}
+		}()
 		var line string
 		func() {
 			defer func() {
